@@ -74,7 +74,8 @@ Sparse(s) == {MinP(s), MaxP(s)}
              \cup {[MinP(s) EXCEPT ![i] = n] : i \in Optional(s), n \in {1, 2}}
              \cup {[MaxP(s) EXCEPT ![i] = 0] : i \in Optional(s)}
              \cup {[MinP(s) EXCEPT ![i] = 1, ![j] = 1] : i \in Optional(s), j \in Optional(s)}
-Pops(s) == IF Cardinality(Optional(s)) <= 7 THEN AllPops(s)
+CONSTANT FullLimit     \* structures with at most this many optional members get every population (7 quick, 9 thorough)
+Pops(s) == IF Cardinality(Optional(s)) <= FullLimit THEN AllPops(s)
            ELSE {p \in Sparse(s) : \A i \in FI(s) : p[i] \in Dom(Fields(s)[i])}
 
 VARIABLE c       \* a case [s, p, v]
